@@ -214,6 +214,18 @@ def run(ctx):
             ren = req['rename_modifiers']
             if [[dict(q, name=ren.get(q['name'], q['name'])) for q in ps] for ps in kept_pars] != got_pars:
                 ctx.fail('C16/prune-configs', 'parameter configurations of surviving names were dropped or changed', inp, got_pars, kept_pars)
+            # … exactly: the channel / sample / modifier lists of the result are the input's with the named items filtered out, nothing else
+            rc, rs, rm = req['rename_channels'], req['rename_samples'], req['rename_modifiers']
+            expc = [dict(c, name=rc.get(c['name'], c['name']),
+                         samples=[dict(sm, name=rs.get(sm['name'], sm['name']),
+                                       modifiers=[dict(m, name=rm.get(m['name'], m['name'])) for m in sm['modifiers']
+                                                  if m['name'] not in req['prune_modifiers'] and m['type'] not in req['prune_modifier_types']])
+                                  for sm in c['samples'] if sm['name'] not in req['prune_samples']])
+                    for c in copy.deepcopy(frozen['channels']) if c['name'] not in req['prune_channels']]
+            if o['channels'] != expc:
+                ctx.fail('C16/prune-exact-items', 'the result does not consist of exactly the input items that were not named (by name, by modifier type, by sample, by channel), renamed as requested', inp,
+                         [[(sm['name'], [(m['name'], m['type']) for m in sm['modifiers']]) for sm in c['samples']] for c in o['channels']],
+                         [[(sm['name'], [(m['name'], m['type']) for m in sm['modifiers']]) for sm in c['samples']] for c in expc])
             # … and the likelihood of the remainder is unchanged: model of the result vs model of the independently filtered spec
             if mode in ('types', 'channels') and not any(req[k] for k in req if k.startswith('rename')):
                 try:
